@@ -62,6 +62,7 @@ def gen_numeric_feature(s, name, lattice_size, allow_unimodal, p_mono=0.7):
   return {
       "name": name,
       "type": "num",
+      "keypoints_numpy": s.sub("kp-numpy").chance(0.35),
       "lattice_size": lattice_size,
       "monotonicity": spelled,
       "always_monotonic": always,
@@ -125,7 +126,10 @@ def feature_config(tfl, f, extra=None):
       pwl_calibration_always_monotonic=f["always_monotonic"],
       pwl_calibration_convexity=f["convexity"],
       pwl_calibration_num_keypoints=len(f["keypoints"]),
-      pwl_calibration_input_keypoints=list(f["keypoints"]),
+      # Keypoints usually come out of compute_keypoints as numpy arrays.
+      pwl_calibration_input_keypoints=(
+          np.asarray(f["keypoints"], dtype=np.float64)
+          if f.get("keypoints_numpy") else list(f["keypoints"])),
       pwl_calibration_input_keypoints_type=f["keypoints_type"],
       pwl_calibration_clamp_min=f["clamp_min"],
       pwl_calibration_clamp_max=f["clamp_max"],
